@@ -129,6 +129,9 @@ func (g *pgen) env() []any {
 	add("h", vMap("k", g.scalar(), "size", vInt(7)))
 	add("g", vMap("j", vInt(1), "k", vStr("v")))
 	g.maps = []string{"h", "g"}
+	if !g.noErr && g.r.Intn(12) == 0 {
+		return []any{} // no bindings at all (the caller passes nil): every name is undefined
+	}
 	return env
 }
 
@@ -282,7 +285,7 @@ func (g *pgen) seq(depth int, maxLen int) []any {
 		case k == 16 && depth > 0:
 			name := pick(g.r, []string{"s", "t", "cap"})
 			g.captures++
-			out = append(out, g.withTrims(J{"t": "capture", "name": bs(name), "body": g.innerTrims(g.seq(depth-1, 3))})...)
+			out = append(out, g.withTrims(J{"t": "capture", "name": bs(name), "body": g.innerTrims(g.body(depth-1, 3))})...)
 			g.captures--
 		case k == 17 && depth > 0:
 			out = append(out, g.withTrims(g.caseNode(depth-1))...)
@@ -319,6 +322,14 @@ func (g *pgen) seq(depth int, maxLen int) []any {
 	return out
 }
 
+// body is the body of a block or clause: now and then empty (the clause still takes part in the selection)
+func (g *pgen) body(depth int, maxLen int) []any {
+	if g.r.Intn(8) == 0 {
+		return []any{}
+	}
+	return g.seq(depth, maxLen)
+}
+
 func (g *pgen) ifNode(depth int) J {
 	n := 1 + g.r.Intn(3)
 	brs := []any{}
@@ -327,10 +338,10 @@ func (g *pgen) ifNode(depth int) J {
 		n = 1
 	}
 	for i := 0; i < n; i++ {
-		brs = append(brs, J{"c": g.cond(1), "body": g.innerTrims(g.seq(depth, 3))})
+		brs = append(brs, J{"c": g.cond(1), "body": g.innerTrims(g.body(depth, 3))})
 	}
 	if g.r.Intn(2) == 0 {
-		brs = append(brs, J{"c": J{"t": "else"}, "body": g.innerTrims(g.seq(depth, 2))})
+		brs = append(brs, J{"c": J{"t": "else"}, "body": g.innerTrims(g.body(depth, 2))})
 	}
 	node := J{"t": "if", "branches": brs}
 	if neg {
@@ -346,10 +357,10 @@ func (g *pgen) caseNode(depth int) J {
 		for j := 0; j < 1+g.r.Intn(2); j++ {
 			vals = append(vals, eLit(g.scalar()))
 		}
-		whens = append(whens, J{"vals": vals, "body": g.seq(depth, 2)})
+		whens = append(whens, J{"vals": vals, "body": g.body(depth, 2)})
 	}
 	if g.r.Intn(2) == 0 {
-		whens = append(whens, J{"else": true, "vals": []any{}, "body": g.seq(depth, 2)})
+		whens = append(whens, J{"else": true, "vals": []any{}, "body": g.body(depth, 2)})
 	}
 	return J{"t": "case", "e": g.expr(1), "pre": []any{}, "whens": whens}
 }
@@ -395,12 +406,12 @@ func (g *pgen) forNode(depth int) J {
 			node["cols"] = num(g.r.Intn(4))
 		}
 	}
-	node["body"] = g.innerTrims(g.seq(depth, 4))
+	node["body"] = g.innerTrims(g.body(depth, 4))
 	g.inLoop = save
 	if tag == "for" {
 		g.inLoop--
 		if g.r.Intn(3) == 0 {
-			node["else"] = g.innerTrims(g.seq(depth, 2))
+			node["else"] = g.innerTrims(g.body(depth, 2))
 		}
 	}
 	g.names = saved
@@ -596,6 +607,9 @@ func (g *pgen) richEnv() ([]any, J) {
 		if g.r.Intn(5) == 0 {
 			repr[n] = "drop"
 		}
+	}
+	if g.r.Intn(14) == 0 {
+		return []any{}, J{} // no bindings at all (the caller passes nil): every name is undefined
 	}
 	return env, repr
 }
